@@ -29,7 +29,9 @@ Record pstate := mkP {
   g_meta : list hook;                   (* ArchiveMetaHook objects on sys.meta_path, in order *)
   g_modules : list (string * nat);      (* sys.modules entries that belong to analysed projects: name, owner *)
   g_patched : list string;              (* attributes currently replaced by a fake *)
-  g_capture : bool }.                   (* logging.captureWarnings is on (warnings.showwarning replaced) *)
+  g_capture : bool;                     (* logging.captureWarnings is on (warnings.showwarning replaced) *)
+  g_renames : list (string * string) }. (* a rename table living at CLASS level of Extractor (shared by every
+                                           extractor of the process); untouched when the table is instance state *)
 
 Inductive sop :=
 | OpImport (n : string)          (* import n *)
@@ -37,7 +39,9 @@ Inductive sop :=
 | OpPathPop0                     (* sys.path.pop(0) *)
 | OpPathDrop (p : string)        (* sys.path = [x for x in sys.path if x != p] *)
 | OpPathRemove (p : string)      (* sys.path.remove(p): ValueError when absent *)
-| OpChdir (d : string).          (* os.chdir: patched, changes the virtual cwd only *)
+| OpChdir (d : string)           (* os.chdir: patched, changes the virtual cwd only *)
+| OpRename (old new : string)    (* os.rename(old, new): Extractor.add_rename, names relative to the fake root *)
+| OpRead (p : string).           (* open(p).read(): which member is served (name relative to the fake root) *)
 
 Inductive ending := EReturn | ERaise | ESysExit.
 Inductive pkind := KSetupPy | KPep517 (backend_raises : bool).
@@ -49,12 +53,14 @@ Record project := mkProj {
   pj_dir : string;                      (* the project's directory (PEP 517: os.chdir target) *)
   pj_setupdir : string;                 (* abs_setupdir: what is put on sys.path *)
   pj_helpers : list (string * string);  (* helper modules of the project: name, directory *)
+  pj_files : list string;               (* its data files that scripts open, relative to the fake root *)
   pj_ops : list sop;
   pj_end : ending }.
 
 Record outcome := mkOut {
   o_resolved : string;                  (* where a relative argument is looked for *)
   o_seen : list (string * nat);         (* each imported helper and WHOSE module was served *)
+  o_reads : list (string * string);     (* each path opened and the member actually served (rename table) *)
   o_failed : bool;                      (* in-process analysis failed (fall-back / metadata failure) *)
   o_escaped : bool }.                   (* the failure escapes as a foreign exception class *)
 
@@ -84,34 +90,54 @@ Fixpoint remove_hook (id : nat) (hs : list hook) : option (list hook) :=
   end.
 
 (* ---------------------------------------------------------------- the script *)
-Fixpoint run_ops (ops : list sop) (st : pstate) (seen : list (string * nat)) : pstate * list (string * nat) * bool :=
+Fixpoint lookup_ren (n : string) (t : list (string * string)) : option string :=
+  match t with
+  | [] => None
+  | (k, v) :: r => if String.eqb n k then Some v else lookup_ren n r
+  end.
+(* Extractor.to_relative's last step: a renamed path stands for the member it was renamed from *)
+Definition via_renames (t : list (string * string)) (n : string) : string :=
+  match lookup_ren n t with Some v => v | None => n end.
+
+(* the extractor's rename table during the run is kept in [g_renames] (see [analyse] for what it starts
+   with and what survives) *)
+Fixpoint run_ops (files : list string) (ops : list sop) (st : pstate) (seen : list (string * nat)) (reads : list (string * string))
+  : pstate * list (string * nat) * list (string * string) * bool :=
   match ops with
-  | [] => (st, seen, false)
+  | [] => (st, seen, reads, false)
   | op :: rest =>
       match op with
       | OpImport n =>
           match lookup_mod n (g_modules st) with
-          | Some o => run_ops rest st (seen ++ [(n, o)])
+          | Some o => run_ops files rest st (seen ++ [(n, o)]) reads
           | None =>
               match first_hook (g_path st) n (g_meta st) with
-              | Some o => run_ops rest (mkP (g_cwd st) (g_path st) (g_meta st) ((n, o) :: g_modules st) (g_patched st) (g_capture st))
-                                  (seen ++ [(n, o)])
-              | None => (st, seen, true)        (* ImportError *)
+              | Some o => run_ops files rest (mkP (g_cwd st) (g_path st) (g_meta st) ((n, o) :: g_modules st) (g_patched st) (g_capture st) (g_renames st))
+                                  (seen ++ [(n, o)]) reads
+              | None => (st, seen, reads, true)        (* ImportError *)
               end
           end
-      | OpPathInsert p => run_ops rest (mkP (g_cwd st) (p :: g_path st) (g_meta st) (g_modules st) (g_patched st) (g_capture st)) seen
+      | OpPathInsert p => run_ops files rest (mkP (g_cwd st) (p :: g_path st) (g_meta st) (g_modules st) (g_patched st) (g_capture st) (g_renames st)) seen reads
       | OpPathPop0 =>
           match g_path st with
-          | [] => (st, seen, true)              (* IndexError *)
-          | _ :: r => run_ops rest (mkP (g_cwd st) r (g_meta st) (g_modules st) (g_patched st) (g_capture st)) seen
+          | [] => (st, seen, reads, true)              (* IndexError *)
+          | _ :: r => run_ops files rest (mkP (g_cwd st) r (g_meta st) (g_modules st) (g_patched st) (g_capture st) (g_renames st)) seen reads
           end
       | OpPathDrop p =>
-          run_ops rest (mkP (g_cwd st) (filter (fun x => negb (String.eqb x p)) (g_path st)) (g_meta st) (g_modules st) (g_patched st) (g_capture st)) seen
+          run_ops files rest (mkP (g_cwd st) (filter (fun x => negb (String.eqb x p)) (g_path st)) (g_meta st) (g_modules st) (g_patched st) (g_capture st) (g_renames st)) seen reads
       | OpPathRemove p =>
           if mem p (g_path st)
-          then run_ops rest (mkP (g_cwd st) (remove_first p (g_path st)) (g_meta st) (g_modules st) (g_patched st) (g_capture st)) seen
-          else (st, seen, true)                 (* ValueError *)
-      | OpChdir _ => run_ops rest st seen
+          then run_ops files rest (mkP (g_cwd st) (remove_first p (g_path st)) (g_meta st) (g_modules st) (g_patched st) (g_capture st) (g_renames st)) seen reads
+          else (st, seen, reads, true)                 (* ValueError *)
+      | OpChdir _ => run_ops files rest st seen reads
+      | OpRename old new =>
+          (* add_rename: renames[to_relative(new)] = to_relative(old) *)
+          run_ops files rest (mkP (g_cwd st) (g_path st) (g_meta st) (g_modules st) (g_patched st) (g_capture st)
+                                  ((new, via_renames (g_renames st) old) :: g_renames st)) seen reads
+      | OpRead p =>
+          let served := via_renames (g_renames st) p in
+          if mem served files then run_ops files rest st seen (reads ++ [(p, served)])
+          else (st, seen, reads, true)                 (* IOError: Could not find ... *)
       end
   end.
 
@@ -125,20 +151,20 @@ Definition cleanup_step (p : project) (saved : list string) (started : bool) (c 
   match c with
   | CPathRemove guarded =>
       if mem (pj_setupdir p) (g_path st)
-      then Some (mkP (g_cwd st) (remove_first (pj_setupdir p) (g_path st)) (g_meta st) (g_modules st) (g_patched st) (g_capture st))
+      then Some (mkP (g_cwd st) (remove_first (pj_setupdir p) (g_path st)) (g_meta st) (g_modules st) (g_patched st) (g_capture st) (g_renames st))
       else if guarded then Some st else None
-  | CPathRestore => Some (mkP (g_cwd st) saved (g_meta st) (g_modules st) (g_patched st) (g_capture st))
-  | CEndPatch name => Some (mkP (g_cwd st) (g_path st) (g_meta st) (g_modules st) (remove_first name (g_patched st)) (g_capture st))
+  | CPathRestore => Some (mkP (g_cwd st) saved (g_meta st) (g_modules st) (g_patched st) (g_capture st) (g_renames st))
+  | CEndPatch name => Some (mkP (g_cwd st) (g_path st) (g_meta st) (g_modules st) (remove_first name (g_patched st)) (g_capture st) (g_renames st))
   | CMetaRemove guarded =>
       match remove_hook (pj_id p) (g_meta st) with
-      | Some m => Some (mkP (g_cwd st) (g_path st) m (g_modules st) (g_patched st) (g_capture st))
+      | Some m => Some (mkP (g_cwd st) (g_path st) m (g_modules st) (g_patched st) (g_capture st) (g_renames st))
       | None => if guarded then Some st else None
       end
   | CModules =>
       Some (mkP (g_cwd st) (g_path st) (g_meta st)
-                (filter (fun e => negb (Nat.eqb (snd e) (pj_id p))) (g_modules st)) (g_patched st) (g_capture st))
+                (filter (fun e => negb (Nat.eqb (snd e) (pj_id p))) (g_modules st)) (g_patched st) (g_capture st) (g_renames st))
   | CCaptureUndo =>
-      Some (mkP (g_cwd st) (g_path st) (g_meta st) (g_modules st) (g_patched st) (if started then false else g_capture st))
+      Some (mkP (g_cwd st) (g_path st) (g_meta st) (g_modules st) (g_patched st) (if started then false else g_capture st) (g_renames st))
   end.
 Fixpoint run_cleanup (p : project) (saved : list string) (started : bool) (cs : list cstep) (st : pstate) : pstate * bool :=
   match cs with
@@ -156,6 +182,9 @@ Definition resolve (cwd arg : string) : string :=
   end.
 
 (* ---------------------------------------------------------------- one analysis *)
+Definition start_renames (st : pstate) : list (string * string) :=
+  if extractor_state_fresh_per_analysis then [] else g_renames st.
+
 Definition analyse (st : pstate) (p : project) : outcome * pstate :=
   let resolved := resolve (g_cwd st) (pj_arg p) in
   match pj_kind p with
@@ -164,27 +193,31 @@ Definition analyse (st : pstate) (p : project) : outcome * pstate :=
          `with patches:`; sys.path.insert(0, abs_setupdir) *)
       let started := negb (g_capture st) in
       let saved := g_path st in
+      (* the extractor is created for this analysis: its rename table is [] when it is instance state
+         (assigned in Extractor.__init__), the class-level table of the process otherwise *)
       let st1 := mkP (g_cwd st) (pj_setupdir p :: g_path st)
                      (g_meta st ++ [mkHook (pj_id p) (pj_setupdir p) (pj_helpers p)])
-                     (g_modules st) (begin_patched ++ ctx_patched ++ g_patched st) true in
-      match run_ops (pj_ops p) st1 [] with
-      | (st2, seen, raised) =>
+                     (g_modules st) (begin_patched ++ ctx_patched ++ g_patched st) true (start_renames st) in
+      match run_ops (pj_files p) (pj_ops p) st1 [] [] with
+      | (st2, seen, reads, raised) =>
           let script_failed := raised || match pj_end p with ERaise => true | _ => false end in
           match run_cleanup p saved started cleanup_steps st2 with
           | (st3, cleanup_raised) =>
-              (* leaving `with patches:` - a context manager: undone iff patch() restores in a finally *)
-              let st4 := if ctx_restored_in_finally || negb (script_failed || cleanup_raised)
-                         then mkP (g_cwd st3) (g_path st3) (g_meta st3) (g_modules st3) (remove_all ctx_patched (g_patched st3)) (g_capture st3)
-                         else st3 in
-              (mkOut resolved seen (script_failed || cleanup_raised) false, st4)
+              (* leaving `with patches:` - a context manager: undone iff patch() restores in a finally;
+                 the extractor is closed and dropped: an instance table dies with it, a class-level one stays *)
+              let pat := if ctx_restored_in_finally || negb (script_failed || cleanup_raised)
+                         then remove_all ctx_patched (g_patched st3) else g_patched st3 in
+              let ren := if extractor_state_fresh_per_analysis then g_renames st else g_renames st3 in
+              (mkOut resolved seen reads (script_failed || cleanup_raised) false,
+               mkP (g_cwd st3) (g_path st3) (g_meta st3) (g_modules st3) pat (g_capture st3) ren)
           end
       end
   | KPep517 raises =>
       (* old_cwd = os.getcwd(); os.chdir(source_file); with patch(...): prepare(dest); os.chdir(old_cwd);
          a raising hook is reported as a MetadataError iff extract_metadata wraps it *)
       let cwd' := if pep517_chdir_restored_in_finally || negb raises then g_cwd st else pj_dir p in
-      (mkOut resolved [] raises (raises && negb pep517_failure_wrapped),
-       mkP cwd' (g_path st) (g_meta st) (g_modules st) (g_patched st) (g_capture st))
+      (mkOut resolved [] [] raises (raises && negb pep517_failure_wrapped),
+       mkP cwd' (g_path st) (g_meta st) (g_modules st) (g_patched st) (g_capture st) (g_renames st))
   end.
 
 Fixpoint run_seq (st : pstate) (ps : list project) : list outcome * pstate :=
